@@ -515,6 +515,11 @@ func (fi *FnInfo) IntervalAt(at ssa.Instruction, v ssa.Value) (lo, hi int64) {
 func IntervalOf(facts []Fact, v ssa.Value) (lo, hi int64) {
 	lo, hi = NegInf, PosInf
 	rv := Resolve(v)
+	if c, ok := rv.(*ssa.Call); ok {
+		if b, ok := c.Call.Value.(*ssa.Builtin); ok && (b.Name() == "len" || b.Name() == "cap") {
+			lo = 0
+		}
+	}
 	ne := map[int64]bool{}
 	for _, f := range facts {
 		c, ok := DecodeIntCmp(f.Cond)
